@@ -305,6 +305,7 @@ type Case struct {
 	Win     [][]lhMap       `json:"win"` // [env][element-1] -> longhand -> canonical value
 	Items   []Item          `json:"items"`
 	Compete bool            `json:"compete"`
+	Mixed   bool            `json:"mixed"`
 
 	Family string `json:"-"`
 	Name   string `json:"-"`
